@@ -1,4 +1,4 @@
-(** C06 - arbitrarily long digit strings are still rounded correctly.  PROVED END TO END: [parse_float_correct]
+(** C06 - arbitrarily long digit strings are still rounded correctly.  PROVED END TO END: [parse_float_correct_final]
     holds for every valid input of up to 2^28 digits - digits beyond the 19th and beyond the MAX_DIGITS-th
     change the result exactly when they move the exact value across a rounding boundary, because the
     result is RN of the EXACT value.  The ingredients: stage 1 keeps 19 digits + a truncation flag
@@ -7,7 +7,7 @@
     [trunc_ok] is computed on the regenerated constant and holds for f64 iff MAX_DIGITS >= 768); and in
     the shape the property states: [far_digit_breaks_tie], [nines_below_tie_round_down],
     [trailing_zeros_irrelevant].
-    Domain and premise as in props/C01.v.  Closed by [exact]. *)
+    Domain as in props/C01.v, no further premise.  Closed by [exact]. *)
 
 From Coq Require Import ZArith QArith Qabs List Bool Reals Qreals.
 From Coq Require Import Floats.SpecFloat.
@@ -15,20 +15,18 @@ From Flocq Require Import Core.Core.
 From ML Require Import base.RustSem model.Fmt model.Num model.Number model.Parse model.Lemire model.Bellerophon model.Vec model.Bigint model.Slow model.Top
   spec.Decimal spec.Round spec.RoundFacts spec.DigitsSuffice gen.Consts gen.Tables gen.BTables gen.PowDump
   proofs.ParseFacts proofs.FastPathFacts proofs.EndToEnd proofs.EndToEnd2 proofs.EndToEnd3 proofs.EndToEnd4 proofs.EndToEnd5 proofs.EndToEnd6 proofs.EndToEnd7
-  proofs.LemireFacts6 proofs.Glue proofs.TruncFacts proofs.TruncFacts2 proofs.SlowFacts1.
+  proofs.LemireFacts6 proofs.Glue proofs.TruncFacts proofs.TruncFacts2 proofs.SlowFacts1 proofs.DeepFallback proofs.DeepFallback2 proofs.Final.
 Import ListNotations.
 
 Open Scope Z_scope.
 
-Theorem C06_parse_float_correct :
+Theorem C06_parse_float_correct_final :
   forall (c : config) (f : format) (b : build) (i fr : list Z) (e : Z),
          In c ALL_CONFIGS ->
          f = F32 \/ f = F64 ->
          valid_inputb i fr e = true ->
-         zlen i + zlen fr <= 2 ^ 28 ->
-         (compact c = false -> no_deep_fallback_at f b (parse_spec i fr e)) ->
-         PF c f b i fr e = Ok (RN f (dec_value i fr e)).
-Proof. exact parse_float_correct. Qed.
+         zlen i + zlen fr <= 2 ^ 28 -> PF c f b i fr e = Ok (RN f (dec_value i fr e)).
+Proof. exact parse_float_correct_final. Qed.
 
 Theorem C06_parse_number_spec :
   forall (b : build) (i f : list Z) (e : Z),
@@ -191,7 +189,7 @@ Theorem C06_trailing_zeros_irrelevant :
 Proof. exact trailing_zeros_irrelevant. Qed.
 
 
-Print Assumptions C06_parse_float_correct.
+Print Assumptions C06_parse_float_correct_final.
 Print Assumptions C06_parse_number_spec.
 Print Assumptions C06_parse_number_value_bracket.
 Print Assumptions C06_parse_mantissa_spec.
